@@ -1,4 +1,7 @@
 import Driver.C04
+import Driver.C03Names
+import Driver.C09P
+import Driver.C13L
 import Driver.C01_Assume
 import Driver.C11_Nest
 import Driver.C18T
@@ -45,6 +48,10 @@ partial def loop (h : IO.FS.Stream) (out : IO.FS.Stream) (f : String → String)
   loop h out f
 
 def modes : List (String × (String → String)) := [
+  ("c03fn", C03Names.handleFn),
+  ("c03nam", C03Names.handleNam),
+  ("c09p", C09P.handle),
+  ("c13l", C13L.handle),
   ("c08ops", C08.handleOps),
   ("c01a", C01A.handle),
   ("c11nest", C11Nest.handle),
